@@ -28,6 +28,8 @@ type apiGen struct {
 	r         *gen.R
 	env       *apiEnv
 	malformed bool
+	profile   string // "", "uniq" (collision-rich values, unique indexes first), "ttl" (dates, TTL index first)
+	step      int
 	nowMs     int64
 	dbs       []string
 	colls     []string
@@ -35,12 +37,20 @@ type apiGen struct {
 
 func newAPIGen(r *gen.R, env *apiEnv, nowMs int64) *apiGen {
 	g := &apiGen{r: r, env: env, nowMs: nowMs, malformed: r.P(10)}
+	if !g.malformed {
+		switch k := r.N(100); {
+		case k < 18:
+			g.profile = "uniq"
+		case k < 28:
+			g.profile = "ttl"
+		}
+	}
 	g.dbs = []string{apiDBs[r.N(2)]}
-	if r.P(35) {
+	if r.P(35) && (g.profile == "" || r.P(30)) {
 		g.dbs = []string{"d1", "d2"}
 	}
 	g.colls = []string{apiColls[r.N(2)]}
-	if r.P(50) {
+	if r.P(50) && (g.profile == "" || r.P(30)) {
 		g.colls = []string{"c", "e"}
 	}
 	return g
@@ -80,11 +90,54 @@ func (g *apiGen) date() interface{} {
 // value returns a field value from the small colliding pool, sometimes a TTL date.
 func (g *apiGen) value() interface{} {
 	r := g.r
+	switch g.profile {
+	case "uniq":
+		switch k := r.N(100); {
+		case k < 45:
+			return int32(r.N(4))
+		case k < 55:
+			return r.SmallNumber()
+		case k < 75:
+			a := bson.A{}
+			for i := 0; i < r.N(4); i++ {
+				a = append(a, int32(r.N(4)))
+			}
+			return a
+		case k < 82:
+			return nil
+		case k < 92:
+			return bson.D{{Key: "b", Value: int32(r.N(3))}}
+		default:
+			return gen.Strings[1+r.N(2)]
+		}
+	case "ttl":
+		switch k := r.N(100); {
+		case k < 45:
+			return g.date()
+		case k < 60:
+			return bson.A{r.SmallNumber(), g.date(), g.date()}
+		case k < 65:
+			return bson.A{bson.D{{Key: "b", Value: g.date()}}, bson.D{{Key: "b", Value: int32(1)}}}
+		case k < 70:
+			return bson.D{{Key: "b", Value: g.date()}}
+		case k < 75:
+			return int64(g.nowMs - 10*3600e3) // a number that looks like an old date
+		}
+	}
 	switch {
 	case r.P(12):
 		return g.date()
 	case r.P(4):
 		return bson.A{g.date(), r.SmallNumber()}
+	case r.P(14):
+		// arrays sharing elements (multikey collisions on a later element)
+		a := bson.A{}
+		for i := 0; i < r.N(4); i++ {
+			a = append(a, r.SmallNumber())
+		}
+		return a
+	case r.P(5):
+		return bson.A{bson.D{{Key: "b", Value: r.SmallNumber()}}, bson.D{{Key: "b", Value: r.SmallNumber()}}}
 	case r.P(45):
 		return r.SmallNumber()
 	case r.P(20):
@@ -101,18 +154,26 @@ func (g *apiGen) doc(db, coll string) bson.D {
 	if r.P(85) {
 		d = append(d, bson.E{Key: "_id", Value: g.id(db, coll, 25)})
 	}
-	if r.P(30) {
+	if r.P(30) && g.profile == "" {
 		d = append(d, r.Doc(2, false, false)...)
 		return d
 	}
-	n := r.N(4)
-	used := map[string]bool{}
-	for i := 0; i < n; i++ {
-		k := gen.Keys[r.N(len(gen.Keys))]
-		if used[k] {
-			continue
+	var keys []string
+	if g.profile == "uniq" && r.P(85) {
+		// the indexed fields are (almost) always present: a missing field collides with every other missing one
+		keys = [][]string{{"a", "b"}, {"b", "a"}, {"a", "b", "c"}, {"a"}, {"b"}}[r.N(5)]
+	} else {
+		n := r.N(4)
+		used := map[string]bool{}
+		for i := 0; i < n; i++ {
+			k := gen.Keys[r.N(len(gen.Keys))]
+			if !used[k] {
+				used[k] = true
+				keys = append(keys, k)
+			}
 		}
-		used[k] = true
+	}
+	for _, k := range keys {
 		var v interface{} = g.value()
 		if k == "a" && r.P(20) {
 			v = bson.D{{Key: "b", Value: g.value()}}
@@ -315,16 +376,16 @@ func (g *apiGen) projection(db, coll string) (bson.D, bool) {
 
 func (g *apiGen) window(c *apiCall) {
 	r := g.r
-	if r.P(40) {
+	if r.P(50) {
 		c.HasSkip = true
-		c.Skip = int64(r.N(4))
+		c.Skip = int64(r.N(3))
 		if g.malformed && r.P(30) {
 			c.Skip = -int64(1 + r.N(3))
 		}
 	}
-	if r.P(40) {
+	if r.P(50) {
 		c.HasLimit = true
-		c.Limit = int64(r.N(5))
+		c.Limit = int64(r.N(4))
 		if g.malformed && r.P(30) {
 			c.Limit = -int64(1 + r.N(3))
 		}
@@ -358,10 +419,14 @@ func (g *apiGen) indexKeys() bson.D {
 	if g.malformed && r.P(5) {
 		return bson.D{}
 	}
-	f := apiIdxFields[r.N(len(apiIdxFields))]
+	fields := apiIdxFields
+	if g.profile == "uniq" {
+		fields = []string{"a", "b", "a.b"}
+	}
+	f := fields[r.N(len(fields))]
 	keys := bson.D{{Key: f, Value: dir()}}
 	if r.P(28) {
-		f2 := apiIdxFields[r.N(len(apiIdxFields))]
+		f2 := fields[r.N(len(fields))]
 		if f2 != f {
 			keys = append(keys, bson.E{Key: f2, Value: dir()})
 		}
@@ -450,6 +515,37 @@ func (g *apiGen) next() *apiCall {
 	c.DB, c.Coll = g.handle()
 	db, coll := c.DB, c.Coll
 	k := r.N(1000)
+	g.step++
+	switch {
+	case g.profile == "uniq" && (g.step == 1 || r.P(6)):
+		g.createIndex(c)
+		c.Unique = true
+		if c.HasTTL && r.P(70) {
+			c.HasTTL = false
+		}
+		return c
+	case g.profile == "ttl" && (g.step == 1 || r.P(8)):
+		g.createIndex(c)
+		c.Keys = bson.D{{Key: apiIdxFields[r.N(len(apiIdxFields))], Value: int32(1 - 2*r.N(2))}}
+		c.HasTTL, c.TTL = true, []int32{0, 1, 3600}[r.N(3)]
+		if g.step > 1 && r.P(45) {
+			c.HasTTL = false // a plain index next to the TTL ones: its field must not expire anything
+		}
+		if r.P(70) {
+			c.Unique = false
+		}
+		return c
+	case g.profile == "ttl" && r.P(12):
+		c.M = "expire"
+		return c
+	}
+	if g.profile == "uniq" && r.P(45) {
+		// collision pressure: inserts, updates, replacements and batches on the indexed fields
+		k = []int{360, 400, 440, 480, 530, 590, 630, 780}[r.N(8)]
+	}
+	if g.profile != "" && k >= 900 && k < 940 && r.P(75) {
+		k = 350 + r.N(450) // profiled histories keep their indexes: fewer drops
+	}
 	// young collections mostly get inserts
 	if len(g.docs(db, coll)) < 2 && r.P(45) {
 		k = 350 + r.N(170)
